@@ -203,6 +203,11 @@ impl Listener {
     pub fn accept(&self, timeout: u64) -> Result<Box<dyn Stream>> {
         use libc::{fd_set, select, timeval, EAGAIN, EINTR, FD_ISSET, FD_SET, FD_ZERO};
 
+        #[cfg(varlink_rust_verif)]
+        if let Some(r) = crate::verif::accept(timeout) {
+            return r;
+        }
+
         if timeout > 0 {
             let fd = self
                 .as_raw_fd()
@@ -369,6 +374,8 @@ impl ThreadPool {
 
         for _ in 0..initial_worker {
             workers.push(Worker::new(Arc::clone(&receiver), Arc::clone(&num_busy)));
+            #[cfg(varlink_rust_verif)]
+            crate::verif::probe(crate::verif::Point::PoolSpawned);
         }
 
         ThreadPool {
@@ -385,13 +392,19 @@ impl ThreadPool {
         F: FnOnce() + Send + 'static,
     {
         let job = Box::new(f);
+        #[cfg(varlink_rust_verif)]
+        crate::verif::probe(crate::verif::Point::ExecBeforeSend);
         self.sender.send(Message::NewJob(job)).unwrap();
+        #[cfg(varlink_rust_verif)]
+        crate::verif::probe(crate::verif::Point::ExecBeforeBusyRead);
         if ((self.num_busy() + 1) >= self.workers.len()) && (self.workers.len() <= self.max_workers)
         {
             self.workers.push(Worker::new(
                 Arc::clone(&self.receiver),
                 Arc::clone(&self.num_busy),
             ));
+            #[cfg(varlink_rust_verif)]
+            crate::verif::probe(crate::verif::Point::ExecAfterSpawn);
         }
     }
 
@@ -404,11 +417,15 @@ impl ThreadPool {
 impl Drop for ThreadPool {
     fn drop(&mut self) {
         for _ in &mut self.workers {
+            #[cfg(varlink_rust_verif)]
+            crate::verif::probe(crate::verif::Point::DropBeforeTerminate);
             self.sender.send(Message::Terminate).unwrap();
         }
 
         for worker in &mut self.workers {
             if let Some(thread) = worker.thread.take() {
+                #[cfg(varlink_rust_verif)]
+                crate::verif::probe(crate::verif::Point::DropBeforeJoin(thread.thread().id()));
                 thread.join().unwrap();
             }
         }
@@ -422,21 +439,33 @@ struct Worker {
 impl Worker {
     fn new(receiver: Arc<Mutex<mpsc::Receiver<Message>>>, num_busy: Arc<RwLock<usize>>) -> Worker {
         let thread = thread::spawn(move || loop {
+            #[cfg(varlink_rust_verif)]
+            crate::verif::probe(crate::verif::Point::WorkerLoopTop);
             let message = receiver.lock().unwrap().recv().unwrap();
 
             match message {
                 Message::NewJob(job) => {
+                    #[cfg(varlink_rust_verif)]
+                    crate::verif::probe(crate::verif::Point::WorkerDequeued);
                     {
                         let mut num_busy = num_busy.write().unwrap();
                         *num_busy += 1;
                     }
+                    #[cfg(varlink_rust_verif)]
+                    crate::verif::probe(crate::verif::Point::WorkerBusyInc);
                     job.call_box();
+                    #[cfg(varlink_rust_verif)]
+                    crate::verif::probe(crate::verif::Point::WorkerJobDone);
                     {
                         let mut num_busy = num_busy.write().unwrap();
                         *num_busy -= 1;
                     }
+                    #[cfg(varlink_rust_verif)]
+                    crate::verif::probe(crate::verif::Point::WorkerBusyDec);
                 }
                 Message::Terminate => {
+                    #[cfg(varlink_rust_verif)]
+                    crate::verif::probe(crate::verif::Point::WorkerTerminate);
                     break;
                 }
             }
@@ -600,5 +629,35 @@ pub fn listen<S: ?Sized + AsRef<str>, H: crate::ConnectionHandler + Send + Sync 
                 }
             }
         });
+    }
+}
+
+/// Thin public wrapper to drive the private `ThreadPool` without sockets.
+#[cfg(varlink_rust_verif)]
+pub struct VerifPool(ThreadPool);
+
+#[cfg(varlink_rust_verif)]
+impl VerifPool {
+    pub fn new(initial_worker: usize, max_workers: usize) -> VerifPool {
+        VerifPool(ThreadPool::new(initial_worker, max_workers))
+    }
+
+    pub fn execute<F>(&mut self, f: F)
+    where
+        F: FnOnce() + Send + 'static,
+    {
+        self.0.execute(f)
+    }
+
+    pub fn num_busy(&self) -> usize {
+        self.0.num_busy()
+    }
+
+    pub fn workers(&self) -> usize {
+        self.0.workers.len()
+    }
+
+    pub fn max_workers(&self) -> usize {
+        self.0.max_workers
     }
 }
